@@ -133,11 +133,14 @@ func genRTCase(c *core.Ctx, i int, vo gen.ValOpts) *rtCase {
 		return rc
 	}
 	n := 1 + r.IntN(6)
-	switch r.IntN(6) {
-	case 0:
+	switch r.IntN(12) {
+	case 0, 1:
 		n = 1
-	case 1:
+	case 2, 3:
 		n = 10 + r.IntN(31)
+	case 4:
+		n = 64 + r.IntN(200) // blocks whose record count needs a two-byte varint
+		vo.NoBigStrings = true
 	}
 	for k := 0; k < n; k++ {
 		o := vo
